@@ -11,6 +11,10 @@ from . import extract
 _HDR = re.compile(r'^\{"fn":("(?:[^"\\\\]|\\\\.)*"),"kind":("(?:[^"\\\\]|\\\\.)*"),"coroutine":(true|false),"parent":("(?:[^"\\\\]|\\\\.)*")')
 
 
+MOVE_ONLY = ("core::future::into_future::IntoFuture::into_future", "core::pin::Pin::<Ptr>::new_unchecked", "core::pin::Pin::<Ptr>::new",
+             "core::future::get_context", "alloc::boxed::Box::<T>::pin", "alloc::boxed::Box::<T>::new")
+
+
 class Body:
     """one MIR body; the JSON line is parsed lazily (most rules touch a handful of the ~7000 bodies)"""
 
@@ -175,6 +179,8 @@ class Body:
             t = b["term"]
             if t["k"] != "call":
                 continue
+            if t["callee"].get("def", "") in MOVE_ONLY:
+                continue        # hands a future / closure on without running it: what it captured by &mut is not touched here
             for a in t["args"]:
                 seen_t = set()
                 for tgt, pj in self._mut_places(a, 0):
